@@ -265,6 +265,26 @@ def check(ctx: Ctx) -> None:
     ctx.rule("R7.5", "the circuit carries the fitted coefficients: stand-in constants replace a coefficient only when it is exactly zero; the design matrix is a function of its arguments (no module-level state)")
     zero_guard_rule(ctx, model, "R7.5", "a small non-zero coefficient (e.g. a 4 nF parallel capacitance) is silently discarded and the model no longer equals the fit")
     stateless_rule(ctx, model, "R7.5")
+    # one writer: fitted coefficients reach the circuit only through _update_circuit, which applies the representation-aware
+    # variable → parameter map; a value written to an element elsewhere bypasses it (e.g. a conductance stored as a resistance)
+    for impl, mod in (("least_squares", LS), ("matrix_inversion", MI)):
+        writers = {}
+        for q, fi_ in sorted(model.funcs.items()):
+            if fi_.module != mod:
+                continue
+            for c_ in calls_in(fi_.node, into_functions=True):
+                if isinstance(c_.func, ast.Attribute) and c_.func.attr == "set_values" and not (isinstance(c_.func.value, ast.Call)):
+                    writers.setdefault(fi_.qual, []).append(c_)
+        ctx.instance("R7.5", f"{impl}: element values are written only by _update_circuit ({sorted(writers)})")
+        extra = {k: v for k, v in writers.items() if k != "_update_circuit"}
+        if "_update_circuit" not in writers:
+            raise AnalysisError(f"{impl}: _update_circuit writes no element value")
+        if not extra:
+            ctx.ok()
+        else:
+            k0 = sorted(extra)[0]
+            ctx.violation("R7.5", f"{impl}:{k0}:direct-write", mod, extra[k0][0],
+                          f"{impl}.{k0} writes {norm(extra[k0][0])[:60]} into the circuit itself instead of going through _update_circuit: the value skips the impedance/admittance conversion of the fitted coefficient")
     ctx.assumptions += ["one symbolic RC element stands for the k-th (columns are uniform in k)", "the design matrix has full column rank (conditioning is not decided)"]
     ctx.trusted += ["sympy simplify on rational functions of real symbols", "sa.terms interpreter"]
 
